@@ -95,10 +95,39 @@ def run(rep):
                                             ('parquet-both', {'storage': 'parquet', 'rg': 2}, {'storage': 'parquet', 'rg': 1}), ('mem-one-row-batches', {'batches': [1] * len(lrows)}, {'batches': [1] * len(rrows)})]:
                         db = {'tables': [table('l', lcols, lrows, **lkw), table('r', rcols, rrows, **rkw)]}
                         units.append({'db': db, 'stmts': [dict(x, want_plan=(j % 15 == 0)) for j, x in enumerate(st)]})
+    # size gates of the probe (> 1,000 and > 10,000 probe rows select the parallel / vectorized probes; >= 100,000 build rows the partitioned build):
+    # generated tables with NULL keys (every 13th / 11th row) and ~100 duplicates per key, either side large, memory (1 and 40 batches) and Parquet
+    def gen(n, mod, nul):
+        return [[None if i % nul == 0 else i % mod, i] for i in range(n)]
+    big_units = []
+    st1 = join_stmts(1)
+    keep = ('INNER', 'INNER+residual', 'LEFT', 'LEFT+residual', 'RIGHT+residual', 'FULL', 'FULL+residual', 'SEMI-exists', 'SEMI-exists+residual', 'ANTI-notexists', 'ANTI-notexists+residual', 'SEMI-in', 'LEFT+where-null')
+    seen_tag = {}
+    big_st = []
+    for x in st1:
+        n = seen_tag.get(x['tag'], 0)
+        seen_tag[x['tag']] = n + 1
+        if x['tag'] in keep and n < 2:      # at most two residual predicates per join type
+            big_st.append(dict(x, want_plan=(len(big_st) % 5 == 0)))
+    cols1l = [['k0', 'int64'], ['p', 'int64']]
+    cols1r = [['k0', 'int64'], ['q', 'int64']]
+    plan = [((1200, 60), ['mem', 'mem-40-batches', 'parquet-both']), ((10500, 150), ['mem', 'parquet-both']), ((150, 10500), ['mem'])]
+    if not quick:
+        plan = [((1200, 60), ['mem', 'mem-40-batches', 'parquet-both']), ((10500, 150), ['mem', 'mem-40-batches', 'parquet-both']), ((150, 10500), ['mem', 'mem-40-batches', 'parquet-both']),
+                ((2000, 100100), ['mem', 'parquet-both']), ((100100, 300), ['mem', 'parquet-both'])]
+    for (nl, nr), lay_names in plan:
+        lrows, rrows = gen(nl, 97, 13), gen(nr, 89 if nr < 50000 else 100003, 11)
+        lays = {'mem': ({}, {}), 'mem-40-batches': ({'batches': [nl // 40] * 39 + [nl - (nl // 40) * 39]}, {}), 'parquet-both': ({'storage': 'parquet', 'rg': 1000}, {'storage': 'parquet', 'rg': 1000})}
+        for lname in lay_names:
+            lkw, rkw = lays[lname]
+            db = {'tables': [table('l', cols1l, lrows, **lkw), table('r', cols1r, rrows, **rkw)]}
+            h = (len(big_st) + 2) // 3
+            for c in range(0, len(big_st), h):
+                big_units.append({'db': db, 'stmts': big_st[c:c + h]})
     rep.rule = ('all pairs of tables with <= %d rows over key tuples (typings %s; values NULL + 2) and unique payloads; INNER/LEFT/RIGHT/FULL with residual ON predicates and WHERE placement, '
-                'CROSS, comma join, EXISTS / NOT EXISTS / IN, joins against an aggregate subquery; memory and Parquet on either side; plus a 40-row side against every 1- and 2-row side in both orientations and four storage layouts (build-side choice, runtime key filter); oracle SQLite 3.40; Execution errors are violations; '
+                'CROSS, comma join, EXISTS / NOT EXISTS / IN, joins against an aggregate subquery; memory and Parquet on either side; plus a 40-row side against every 1- and 2-row side in both orientations and four storage layouts (build-side choice, runtime key filter); plus generated tables of 1,200 / 10,500 (quick) and 100,100 (thorough) rows on either side with NULL and ~100x duplicated keys (the probe-size and build-size gates), memory in 1 and 40 batches and Parquet; oracle SQLite 3.40; Execution errors are violations; '
                 'non-trivial = reference answer non-empty' % (maxrows, typings))
-    sqldiff.run(rep, units)
+    sqldiff.run(rep, big_units + units)      # the heavy units first: they would otherwise be the tail of the run
 
 
 def replay(payload):
